@@ -167,6 +167,19 @@ Extra ==
                                                                      For1("i", Arr(<<LI(1), LI(2)>>), <<Include(LS(NT.t1), Hash(<<LS(NT.a)>>, <<Call("parent", <<>>)>>), TRUE, FALSE, FALSE, FALSE)>>), T(<<93>>)>>)>>)
                          @@ ("t4" :> <<T(<<76>>), Block("bb", <<T(<<112, 98>>)>>), T(<<82>>)>>)
                          @@ ("t1" :> <<T(<<60>>), PrintS(Var("a")), T(<<62>>)>>)],
+    \* an included template that does nothing but extend a layout: the layout reads the including template's variables like any
+    \* included template (also inside a loop)
+    aliasinc |-> [entry |-> "main", fl |-> "",
+                  tp |-> ("main" :> <<Set("q", LI(5)), T(<<91>>), Inc(LS(NT.t1)), For1("i", Arr(<<LI(1), LI(2)>>), <<Inc(LS(NT.t1))>>), Include(LS(NT.t1), Hash(<<LS(NT.q)>>, <<LI(7)>>), TRUE, TRUE, FALSE, FALSE), T(<<93>>)>>)
+                         @@ ("t1" :> <<Extends(LS(NT.t4))>>)
+                         @@ ("t4" :> <<T(<<60>>), PrintS(Var("q")), PrintS(Var("i")), PrintS(Var("a")), Block("bb", <<T(<<35>>), PrintS(Var("q"))>>), T(<<62>>)>>)],
+    \* an engine global is defined wherever it can be read: in the template, in what it includes (plain, only, two levels down, in a loop)
+    globaldef |-> [entry |-> "main", fl |-> "", globals |-> ("g" :> VS(<<71>>)),
+                  tp |-> ("main" :> <<PrintS(Cond(Test(Var("g"), "defined", <<>>, FALSE), LS(<<100>>), LS(<<117>>))), Inc(LS(NT.t1)), Include(LS(NT.t1), Lit(Null), FALSE, TRUE, FALSE, FALSE),
+                                      For1("i", Arr(<<LI(1)>>), <<Inc(LS(NT.t1))>>)>>)
+                         @@ ("t1" :> <<T(<<60>>), PrintS(Cond(Test(Var("g"), "defined", <<>>, FALSE), LS(<<100>>), LS(<<117>>))), PrintS(Var("g")),
+                                       PrintS(Cond(Test(Var("nog"), "defined", <<>>, TRUE), LS(<<117>>), LS(<<100>>))), T(<<62>>), Inc(LS(NT.t3))>>)
+                         @@ ("t3" :> <<T(<<40>>), PrintS(Cond(Test(Var("g"), "defined", <<>>, FALSE), LS(<<100>>), LS(<<117>>))), T(<<41>>)>>)],
     \* a variable that holds null is defined, in the included template as in the including one
     nulldef |-> [entry |-> "main", fl |-> "",
                   tp |-> ("main" :> <<Set("x", Lit(Null)), PrintS(Cond(Test(Var("x"), "defined", <<>>, FALSE), LS(<<100>>), LS(<<117>>))), Inc(LS(NT.t1)),
